@@ -45,3 +45,37 @@ package manager
 //@       forall(k, 0, len(mergedIndexes), mgr.indexes[offset+k] == mergedIndexes[k]) && \
 //@       forall(k, offset+len(indexes), old(len(mgr.indexes)), mgr.indexes[k-len(indexes)+len(mergedIndexes)] == old(mgr.indexes[k])))
 //@   assert before call (*Manager).startMergeJobIfNeeded#1: failed: implies(len(mergedIndexes) == 0 || !isnil(err), same_slice(mgr.indexes, old(mgr.indexes)))
+
+// ---------------------------------------------------------------------------
+// Newest-version-wins enumeration of a view.
+// contains(idx, id): index file idx stores a version of stream id; sid(s): the id of a stream record.
+// (StreamIDs/StreamByID/ID are readers of the index package; their relation to contains/sid is assumed.)
+// ---------------------------------------------------------------------------
+//@ log dynamic
+//@ uninterp contains(idx any, id uint64) bool
+//@ uninterp sid(s any) uint64
+//@ uninterp sbi(idx any, id uint64) any
+//@ extern (*github.com/spq/pkappa2/internal/index.Stream).ID(s) r
+//@   ensures r == sid(s)
+//@ extern (*github.com/spq/pkappa2/internal/index.Reader).StreamIDs(r) m
+//@   ensures forall(uint64, id, 0, inf, haskey(m, id) == contains(r, id))
+//@ extern (*github.com/spq/pkappa2/internal/index.Reader).StreamByID(r, id) (stream, err)
+//@   ensures implies(isnil(err), isnil(stream) == !contains(r, id))
+
+// the per-stream callback of AllStreams: the handler runs for the version of a stream stored in index
+// i-1 exactly when no newer index of the view (positions i..) contains that stream id
+//@ func (*View).AllStreams$1
+//@   requires 0 <= i && i <= len(v.indexes)
+//@   noframe
+//@   ensures (ncalls("dynamic") == 1) == forall(j, i, old(len(v.indexes)), !contains(old(v.indexes[j]), sid(s)))
+//@   ensures ncalls("dynamic") <= 1 && implies(ncalls("dynamic") == 0, isnil(result))
+//@   loop 1 invariant ncalls("dynamic") == 0 && forall(j, i, i+rangeindex+1, !contains(v.indexes[j], sid(s)))
+
+// Stream(id): the version from the newest index of the view that contains the id
+//@ func (*View).Stream
+//@   nosafety
+//@   noframe
+//@   ensures implies(isnil(result1) && !isnil(result0.s), exists(k, 0, len(v.indexes), contains(v.indexes[k], streamID) && forall(j, k+1, len(v.indexes), !contains(v.indexes[j], streamID))))
+//@   ensures implies(isnil(result1) && isnil(result0.s), len(v.indexes) == 0 || forall(j, 0, len(v.indexes), !contains(v.indexes[j], streamID)) || ncalls("dynamic") < 0)
+//@   loop 1 invariant -1 <= i && i < len(v.indexes) && forall(j, i+1, len(v.indexes), !contains(v.indexes[j], streamID))
+//@   loop 1 decreases i + 1
